@@ -9,6 +9,63 @@ import env as envmod
 MODULE = "Alpen.Props.C17"
 
 
+def bulk_index(e, nfiles):
+    """a large, regular index: every file healthy on SRC (group GS); DST (group GD) empty; some copies on OLD released"""
+    from alpenhorn import db
+    for m in (db.StorageTransferAction, db.ArchiveFileCopyRequest, db.ArchiveFileImportRequest, db.ArchiveFileCopy,
+              db.ArchiveFile, db.ArchiveAcq, db.StorageNode, db.StorageGroup):
+        m.delete().execute()
+    gs, gd = db.StorageGroup.create(name="GS"), db.StorageGroup.create(name="GD")
+    src = db.StorageNode.create(name="SRC", group=gs, root=e.root("SRC"), host="h1", active=True, storage_type="F")
+    dst = db.StorageNode.create(name="DST", group=gd, root=e.root("DST"), host="h1", active=True, storage_type="A")
+    acq = db.ArchiveAcq.create(name="A1")
+    files = [dict(acq=acq.id, name=f"f{i:04d}.dat", size_b=1000, md5sum="0" * 32) for i in range(nfiles)]
+    with db.database_proxy.atomic():
+        for i in range(0, nfiles, 90):
+            db.ArchiveFile.insert_many(files[i:i + 90]).execute()
+        ids = [f.id for f in db.ArchiveFile.select()]
+        rows = [dict(file=fid, node=src.id, has_file="Y", wants_file="Y", ready=True) for fid in ids]
+        for i in range(0, nfiles, 90):
+            db.ArchiveFileCopy.insert_many(rows[i:i + 90]).execute()
+    return src, dst
+
+
+BULK = [["group", "sync", "GD", "SRC", "--force"], ["node", "sync", "SRC", "GD", "--force"],
+        ["node", "clean", "SRC", "--force"], ["node", "clean", "SRC", "--now", "--force"],
+        ["node", "verify", "SRC", "--all", "--force"], ["node", "verify", "SRC", "--force"]]
+
+
+def stage_bulk(ctx, e, nfiles):
+    """commands whose number of affected rows grows with the index, on an index larger than any batching constant:
+    an OperationalError at each statement must leave the before- or the after-state"""
+    for argv in BULK:
+        bulk_index(e, nfiles)
+        before = cliharness.full_dump()
+        rc, out, exc = e.cli(argv)
+        nstmt = e.last_stmt_count
+        after = cliharness.full_dump()
+        changed = after != before
+        ctx.count(f"bulk:{argv[0]} {argv[1]}:{'changed' if changed else 'unchanged'}")
+        ctx.case(("bulk", tuple(argv), nfiles), nontrivial=changed,
+                 sample={"argv": argv, "files": nfiles, "statements": nstmt, "exit": rc,
+                         "rows_changed": {t: sum(1 for a, b in zip(before[t], after[t]) if a != b) + abs(len(after[t]) - len(before[t])) for t in after if after[t] != before[t]}}
+                 if changed and len(ctx.samples) < 5 else None)
+        if not changed or rc != 0:
+            continue
+        for k in range(nstmt):
+            bulk_index(e, nfiles)
+            rc2, out2, exc2 = e.cli(argv, faults={k})
+            a2 = cliharness.full_dump()
+            ctx.count("bulk:fault-run")
+            ctx.case(("bulk-fault", tuple(argv), nfiles, k), nontrivial=True)
+            if a2 != before and a2 != after:
+                diff = {t: f"{len(a2[t])} rows (before {len(before[t])}, complete {len(after[t])})" for t in after if a2[t] != before[t]}
+                ctx.violation(f"partial:bulk:{argv[0]} {argv[1]}", f"`alpenhorn {' '.join(argv)}` on {nfiles} files with a DB error at statement "
+                              f"{k} of {nstmt} applied part of its changes: {diff}",
+                              {"kind": "cli-bulk-fault", "argv": argv, "files": nfiles, "k": k, "exit": rc2})
+                break
+
+
 def run(ctx):
     ok = common.proof_stage(ctx, MODULE)
     rng = ctx.rng
@@ -66,6 +123,7 @@ def run(ctx):
                         ctx.violation(f"partial:{meta['kind']}", f"`alpenhorn {' '.join(argv)}` with a DB error at statement {k} of {nstmt} "
                                       f"applied part of its changes (tables {diff})",
                                       {"kind": "cli-fault", "argv": argv, "stdin": stdin, "seed": seed, "k": k, "exit": rc2})
+        stage_bulk(ctx, e, 260 if ctx.quick() else 1200)
     outs = common.Driver().batch(model_lines) if model_lines else []
     for line, (argv, changed, rc), o in zip(model_lines, model_meta, outs):
         if o == "0" and changed:
@@ -83,6 +141,18 @@ def run(ctx):
 def replay(ctx, path):
     r = json.load(open(path))
     print(json.dumps(r, indent=1)[:3000])
+    if r.get("kind") == "cli-bulk-fault":
+        with envmod.CliEnv() as e:
+            bulk_index(e, r["files"])
+            before = cliharness.full_dump()
+            e.cli(r["argv"])
+            after = cliharness.full_dump()
+            bulk_index(e, r["files"])
+            rc, out, exc = e.cli(r["argv"], faults={r["k"]})
+            a2 = cliharness.full_dump()
+            bad = a2 != before and a2 != after
+            print("exit", rc, "partial" if bad else "all-or-nothing")
+        return 1 if bad else 0
     with envmod.CliEnv() as e:
         cliharness.Index(e, random.Random(r["seed"]))
         before = cliharness.full_dump()
